@@ -44,6 +44,7 @@ type Exec struct {
 	topTargets []modTarget
 	loopIns    []*State
 	topReturns []retEdge
+	protect    []modTarget
 }
 
 func (x *Exec) pos(p token.Pos) token.Position { return x.eng.fset.Position(p) }
@@ -260,11 +261,20 @@ func (x *Exec) merge(sts []*State) (*State, error) {
 		for k := range s.heap {
 			keys[k] = true
 		}
+		keySort := map[string]string{}
 		if acc.epoch == s.epoch {
 			n.epoch = acc.epoch
 		} else {
 			x.vc.epochSeq++
 			n.epoch = x.vc.epochSeq
+			// heap maps not mentioned on either side start afresh in the merged epoch; the maps that
+			// carry protected / private locations must stay linked to both sides
+			for _, list := range [][]modTarget{x.protect, acc.private, s.private} {
+				for _, t := range list {
+					keys[t.key] = true
+					keySort[t.key] = t.sort
+				}
+			}
 		}
 		for k := range keys {
 			ha, oka := acc.heap[k]
@@ -272,8 +282,10 @@ func (x *Exec) merge(sts []*State) (*State, error) {
 			var sortS string
 			if oka {
 				sortS = ha.Sort
-			} else {
+			} else if okb {
 				sortS = hb.Sort
+			} else {
+				sortS = keySort[k]
 			}
 			if !oka {
 				ha = x.vc.heapAtEpoch(acc.epoch, k, sortS)
@@ -287,13 +299,42 @@ func (x *Exec) merge(sts []*State) (*State, error) {
 				n.heap[k] = x.vc.bind("Hm", Ite(c, ha, hb))
 			}
 		}
-		for k, ga := range acc.ghost {
-			if gb, ok := s.ghost[k]; ok {
-				if ga.S == gb.S {
-					n.ghost[k] = ga
-				} else {
-					n.ghost[k] = x.vc.bind("g", Ite(c, ga, gb))
+		n.private = append([]modTarget{}, acc.private...)
+	nextPriv:
+		for _, p := range s.private {
+			for _, q := range n.private {
+				if q.key == p.key && q.ref.S == p.ref.S {
+					continue nextPriv
 				}
+			}
+			n.private = append(n.private, p)
+		}
+		gkeys := map[string]bool{}
+		for k := range acc.ghost {
+			gkeys[k] = true
+		}
+		for k := range s.ghost {
+			gkeys[k] = true
+		}
+		for k := range gkeys {
+			ga, oka := acc.ghost[k]
+			gb, okb := s.ghost[k]
+			var gsort string
+			if oka {
+				gsort = ga.Sort
+			} else {
+				gsort = gb.Sort
+			}
+			if !oka {
+				ga = x.vc.ghostInitial(k, gsort)
+			}
+			if !okb {
+				gb = x.vc.ghostInitial(k, gsort)
+			}
+			if ga.S == gb.S {
+				n.ghost[k] = ga
+			} else {
+				n.ghost[k] = x.vc.bind("g", Ite(c, ga, gb))
 			}
 		}
 		if len(acc.defers) != len(s.defers) {
@@ -705,6 +746,7 @@ type havocSet struct {
 	heap  map[string]bool
 	ghost map[string]bool
 	wl    *writeLog // which heap maps were written wholesale / only at some struct fields
+	unknown bool    // the body contains a call with unknown effects: the whole heap is havoced
 }
 
 func newHavocSet() *havocSet {
@@ -713,6 +755,11 @@ func newHavocSet() *havocSet {
 
 func (h *havocSet) absorb(before, after *State) bool {
 	grew := false
+	if after.epoch != before.epoch && !h.unknown {
+		// a call with unknown effects happens in the loop body
+		h.unknown = true
+		grew = true
+	}
 	for id, v := range after.cells {
 		b, ok := before.cells[id]
 		if !ok {
@@ -777,6 +824,9 @@ func sameVal(a, b Val) bool {
 // well-formedness assumptions). If pre is non-nil the function's frame is
 // assumed for the havoced heap maps relative to the entry state.
 func (x *Exec) applyHavoc(fr *frame, st *State, hav *havocSet, pre *State) {
+	if hav.unknown {
+		x.havocCall(st, types.NewSignatureType(nil, nil, nil, nil, nil, false), "loop")
+	}
 	ids := make([]int, 0, len(hav.cells))
 	for id := range hav.cells {
 		ids = append(ids, id)
@@ -842,9 +892,17 @@ func (x *Exec) applyHavoc(fr *frame, st *State, hav *havocSet, pre *State) {
 			}
 		}
 	}
+	gks := make([]string, 0, len(hav.ghost))
 	for k := range hav.ghost {
+		gks = append(gks, k)
+	}
+	sort.Strings(gks)
+	for _, k := range gks {
 		if t, ok := st.ghost[k]; ok {
 			st.ghost[k] = x.vc.freshConst("gh", t.Sort)
+		} else if gs, ok := x.eng.ghostSorts[k]; ok {
+			// never assigned before the loop (still the initial value): havoc it all the same
+			st.ghost[k] = x.vc.freshConst("gh", x.eng.smtSort(gs, x.vc.ar.Mode))
 		}
 	}
 }
@@ -1075,6 +1133,27 @@ func (x *Exec) execInstr(fr *frame, st *State, in ssa.Instruction) error {
 			ref := vc.allocRef(st, "new_"+i.Comment)
 			if err := vc.storeObject(st, ref, et, vc.zeroOf(et)); err != nil {
 				return err
+			}
+			// a local that never leaves this function (only read/written directly, or captured
+			// by closures that are only run by go/defer/direct call) cannot be touched by calls
+			// with unknown effects
+			if privateAlloc(i) {
+				switch u := et.Underlying().(type) {
+				case *types.Struct:
+					for fi := 0; fi < u.NumFields(); fi++ {
+						if _, isArr := u.Field(fi).Type().Underlying().(*types.Array); isArr {
+							continue
+						}
+						k, s := vc.fieldKey(et, fi)
+						st.private = append(st.private, modTarget{key: k, sort: s, ref: ref})
+					}
+				case *types.Array:
+					k, s := vc.elemKey(u.Elem())
+					st.private = append(st.private, modTarget{key: k, sort: s, ref: ref})
+				default:
+					k, s := vc.cellKey(et)
+					st.private = append(st.private, modTarget{key: k, sort: s, ref: ref})
+				}
 			}
 			switch et.Underlying().(type) {
 			case *types.Struct, *types.Array:
@@ -1395,7 +1474,40 @@ func (x *Exec) execInstr(fr *frame, st *State, in ssa.Instruction) error {
 		}
 		return nil
 	case *ssa.Go:
-		return unsupported("go statement")
+		// A goroutine launch is modelled only through the ghost updates the contract declares for it
+		// (opt go:<ghost> <expr>); the body of the goroutine is not verified and is reported as such.
+		applied := false
+		if x.fc != nil {
+			var names []string
+			for k := range x.fc.Opts {
+				if strings.HasPrefix(k, "go:") {
+					names = append(names, k)
+				}
+			}
+			sort.Strings(names)
+			pre := st.clone()
+			for _, k := range names {
+				e, err := ParseExpr(x.fc.Opts[k])
+				if err != nil {
+					return fmt.Errorf("%s: go update: %v", x.fc.Key(), err)
+				}
+				env := x.specEnv(fr, pre, nil)
+				v, err := x.evalSpec(e, env)
+				if err != nil {
+					return fmt.Errorf("%s: go update: %w", x.fc.Key(), err)
+				}
+				st.ghost[k[3:]] = vc.bind("g", v.T)
+				applied = true
+			}
+		}
+		if !applied {
+			return unsupported("go statement")
+		}
+		if vc.dry == 0 {
+			p := x.pos(i.Pos())
+			vc.trusted[fmt.Sprintf("goroutine launched at %s:%d: body not verified; its effects are abstracted by the declared ghost updates and rely", shortFile(p.Filename), p.Line)] = true
+		}
+		return nil
 	case *ssa.Select:
 		return unsupported("select statement")
 	case *ssa.Send:
@@ -1543,6 +1655,75 @@ func (x *Exec) wildStore(fr *frame, st *State, elem types.Type) error {
 		vc.dropped["store through a loop-modified pointer of type *"+typeKey(elem)+": all locations of that type havoced"] = true
 	}
 	return nil
+}
+
+// privateAlloc: the address of this heap-allocated local is never handed to code that is not
+// executed as part of this function.
+func privateAlloc(a *ssa.Alloc) bool {
+	refs := a.Referrers()
+	if refs == nil {
+		return false
+	}
+	var okAddr func(v ssa.Value, depth int) bool
+	okAddr = func(v ssa.Value, depth int) bool {
+		if depth > 4 {
+			return false
+		}
+		rs := v.Referrers()
+		if rs == nil {
+			return false
+		}
+		for _, r := range *rs {
+			switch u := r.(type) {
+			case *ssa.Store:
+				if u.Val == v {
+					return false // the address itself is stored somewhere
+				}
+			case *ssa.UnOp:
+				if u.Op != token.MUL {
+					return false
+				}
+			case *ssa.DebugRef:
+			case *ssa.FieldAddr:
+				if !okAddr(u, depth+1) {
+					return false
+				}
+			case *ssa.IndexAddr:
+				if u.X != v || !okAddr(u, depth+1) {
+					return false
+				}
+			case *ssa.MakeClosure:
+				// the closure may only be run from here: go, defer or a direct call
+				crs := u.Referrers()
+				if crs == nil {
+					return false
+				}
+				for _, cr := range *crs {
+					switch cu := cr.(type) {
+					case *ssa.Go:
+						if cu.Call.Value != u {
+							return false
+						}
+					case *ssa.Defer:
+						if cu.Call.Value != u {
+							return false
+						}
+					case *ssa.Call:
+						if cu.Call.Value != u {
+							return false
+						}
+					case *ssa.DebugRef:
+					default:
+						return false
+					}
+				}
+			default:
+				return false
+			}
+		}
+		return true
+	}
+	return okAddr(a, 0)
 }
 
 func (x *Exec) execSlice(fr *frame, st *State, i *ssa.Slice) error {
